@@ -631,7 +631,7 @@ def executed_layout(ctx, quick):
         if m is None:
             return
         c = m.codec
-        eps = [rt.CppEndpoint(m, "plain"), rt.PyEndpoint(m), rt.PyEndpoint(m, mode="list"), rt.PyEndpoint(m, mode="fortran")]
+        eps = [rt.CppEndpoint(m, "plain"), rt.PyEndpoint(m), rt.PyEndpoint(m, mode="list"), rt.PyEndpoint(m, mode="fortran"), rt.PyEndpoint(m, mode="views")]
         for proto in pkg.protocols():
             for k in range((2 if quick else 4) if kind != "unionpairs" else 6):
                 vals = values.ValueGen(c, rng("C14x", key or kind, proto.name, k), quiet_nan_only=True).steps(proto, stream_len=3)
